@@ -309,12 +309,64 @@ class UrlRead(Stream):
         return case["mm"] is not None
 
 
+class CountingBytesIO(io.BytesIO):
+    """wsgi.input that counts the bytes actually handed out"""
+
+    def __init__(self, data):
+        super().__init__(data)
+        self.taken = 0
+
+    def read(self, n=-1):
+        out = super().read(n)
+        self.taken += len(out)
+        return out
+
+    def read1(self, n=-1):
+        out = super().read1(n)
+        self.taken += len(out)
+        return out
+
+    def readinto(self, b):
+        k = super().readinto(b)
+        self.taken += k or 0
+        return k
+
+    def readline(self, *a):
+        out = super().readline(*a)
+        self.taken += len(out)
+        return out
+
+
+def big_body(rng, kind):
+    """a body much longer than any small max_content_length (forged / understated Content-Length)"""
+    n = rng.choice([300, 2000, 20000, 200000])
+    if kind == "url":
+        return b"", b"a=" + b"x" * n
+    bd = b"bound"
+    if rng.random() < 0.5:
+        parts = [("a", None, [], b"v" * n, False)]
+    else:
+        parts = [("a", None, [], b"v", False), ("up", "f.bin", [], b"d" * n, False)]
+    return bd, render(bd, b"\r\n", parts)
+
+
 class RequestLimits(Stream):
     name = "limits-request"
     corpus = [
         # F10 at request level
         {"kind": "url", "b": "-", "body": hx(b"a=" + b"x" * 5000), "cl": False, "term": True, "short": False, "mcl": None, "mm": 100, "mp": None},
+        # server-terminated stream with an understated Content-Length (chunked transfer, forged header)
+        {"kind": "url", "b": "-", "body": hx(b"a=" + b"x" * 200000), "dcl": 10, "term": True, "short": False, "mcl": 1000, "mm": 500000, "mp": 1000},
+        {"kind": "mp", "b": hx(b"bound"), "body": hx(render(b"bound", b"\r\n", [("a", None, [], b"v" * 200000, False)])), "dcl": 10, "term": True, "short": False, "mcl": 1000, "mm": 500000, "mp": 1000},
+        {"kind": "mp", "b": hx(b"bound"), "body": hx(render(b"bound", b"\r\n", [("up", "f", [], b"d" * 50000, False)])), "dcl": 0, "term": True, "short": True, "mcl": 100, "mm": None, "mp": None},
+        {"kind": "url", "b": "-", "body": hx(b"a=" + b"x" * 3000), "dcl": 1000, "term": True, "short": False, "mcl": 1000, "mm": None, "mp": None},
     ]
+
+    @staticmethod
+    def declared(case):
+        if "dcl" in case:
+            return case["dcl"]
+        return len(unhx(case["body"])) if case.get("cl") else None
 
     def cases(self, rng, tier):
         for _ in range(900 if tier == "quick" else 15000):
@@ -335,9 +387,34 @@ class RequestLimits(Stream):
                 "mm": pick_limit(rng, [L, 50, 10]),
                 "mp": pick_limit(rng, [body.count(b"name=")]),
             }
+        # declared length that is not the real length, on a server-terminated stream
+        for _ in range(120 if tier == "quick" else 2500):
+            kind = rng.choice(["url", "mp"])
+            if rng.random() < 0.6:
+                bd, body = big_body(rng, kind)
+            elif kind == "url":
+                bd, body = b"", rand_urlencoded(rng)
+            else:
+                bd, body = sized_body(rng)
+            L = len(body)
+            mcl = rng.choice([0, 10, 100, 1000, L - 1, L, L + 1, None])
+            mcl = None if mcl is None else max(0, mcl)
+            dcl = rng.choice([0, 1, 10, mcl if mcl is not None else 5, (mcl or 0) + 1, L // 2, L, L + 7])
+            yield {
+                "kind": kind,
+                "b": hx(bd),
+                "body": hx(body),
+                "dcl": dcl,
+                "term": True,
+                "short": rng.random() < 0.3,
+                "mcl": mcl,
+                "mm": rng.choice([None, 500000, 500000, 50]),
+                "mp": rng.choice([None, 1000, 1]),
+            }
 
-    @staticmethod
-    def run(case, limits=True):
+    @classmethod
+    def run(cls, case, limits=True):
+        """(result, bytes taken from wsgi.input)"""
         from werkzeug.wrappers import Request
 
         body = unhx(case["body"])
@@ -347,7 +424,7 @@ class RequestLimits(Stream):
             max_form_memory_size = case["mm"] if limits else None
             max_form_parts = case["mp"] if limits else None
 
-        stream = ShortReader(body, [3, 1, 50, 7] * 50) if case["short"] else io.BytesIO(body)
+        stream = ShortReader(body, [3, 1, 50, 7] * 50) if case["short"] else CountingBytesIO(body)
         env = {
             "REQUEST_METHOD": "POST",
             "wsgi.input": stream,
@@ -358,39 +435,56 @@ class RequestLimits(Stream):
             "QUERY_STRING": "",
             "CONTENT_TYPE": "application/x-www-form-urlencoded" if case["kind"] == "url" else 'multipart/form-data; boundary="' + unhx(case["b"]).decode("latin1") + '"',
         }
-        if case["cl"]:
-            env["CONTENT_LENGTH"] = str(len(body))
+        dcl = cls.declared(case)
+        if dcl is not None:
+            env["CONTENT_LENGTH"] = str(dcl)
         if case["term"]:
             env["wsgi.input_terminated"] = True
         try:
             req = R(env)
             form = list(req.form.items(multi=True))
             files = list(req.files.items(multi=True))
-            return out_list(hs(k) + "=" + hs(v) for k, v in form) + "|" + out_list(hs(k) + ":" + hs(f.filename or "") + ":" + hx(f.stream.read()) for k, f in files)
+            out = out_list(hs(k) + "=" + hs(v) for k, v in form) + "|" + out_list(hs(k) + ":" + hs(f.filename or "") + ":" + hx(f.stream.read()) for k, f in files)
         except Exception as e:  # noqa: BLE001
-            return "EXC:" + type(e).__name__
+            out = "EXC:" + type(e).__name__
+        taken = stream.pos if case["short"] else stream.taken
+        return out, taken
 
     def real(self, case):
-        return self.run(case)
+        out, taken = self.run(case)
+        return out + "#" + str(taken)
 
     def oracle(self, case, real_out):
-        free = self.run(case, limits=False)
+        real_out, _, taken = real_out.rpartition("#")
+        taken = int(taken) if taken.isdigit() else 0
+        free = self.run(case, limits=False)[0]
         body = unhx(case["body"])
         L = len(body)
-        if not real_out.startswith("EXC"):
-            if real_out != free:
-                return "parsing succeeded under limits but differs from parsing without limits"
-        elif real_out != "EXC:" + R413 and real_out != free:
-            return f"limits changed the failure: {real_out} vs {free}"
+        dcl = self.declared(case)
+        mcl = case["mcl"]
+        # never more than max_content_length bytes are taken from the input
+        if mcl is not None and taken > mcl:
+            return f"took {taken} bytes from wsgi.input with max_content_length={mcl} (declared {dcl}, terminated={case['term']})"
+        truthful = dcl is None or dcl == L
+        if truthful or case["term"]:
+            if not real_out.startswith("EXC"):
+                if real_out != free:
+                    return "parsing succeeded under limits but differs from parsing without limits"
+            elif real_out != "EXC:" + R413 and real_out != free:
+                return f"limits changed the failure: {real_out} vs {free}"
         # lower bounds: what certainly exceeds a limit must answer 413
-        readable = case["cl"] or case["term"]
+        readable = dcl is not None or case["term"]
         why = None
-        if case["mcl"] is not None and readable and L > case["mcl"]:
-            why = f"{'declared' if case['cl'] else 'streamed'} length {L} > max_content_length={case['mcl']}"
-        elif readable and case["kind"] == "url":
+        if mcl is not None and dcl is not None and dcl > mcl:
+            why = f"declared length {dcl} > max_content_length={mcl}"
+        elif mcl is not None and case["term"] and L > mcl:
+            why = f"server-terminated body of {L} bytes > max_content_length={mcl} (declared {dcl})"
+        elif mcl is not None and dcl is not None and truthful and L > mcl:
+            why = f"declared length {L} > max_content_length={mcl}"
+        elif readable and (truthful or case["term"]) and case["kind"] == "url":
             if case["mm"] is not None and L > case["mm"]:
                 why = f"urlencoded body of {L} bytes > max_form_memory_size={case['mm']}"
-        elif readable:
+        elif readable and (truthful or case["term"]):
             ev, err, _ = decode_real(unhx(case["b"]), [body])
             if err is None and not free.startswith("EXC"):
                 parts = parts_of(ev)
@@ -403,17 +497,26 @@ class RequestLimits(Stream):
         return None
 
     def finding_key(self, case, what):
-        # F10b: urlencoded, no declared length, server-terminated, max_form_memory_size=None, body longer
-        # than max_content_length: LimitedStream(is_max=True).readall() truncates without raising
-        if case["kind"] == "url" and not case["cl"] and case["term"] and case["mm"] is None and case["mcl"] is not None and len(unhx(case["body"])) > case["mcl"]:
+        # F10b: urlencoded, server-terminated, no (or an understated) declared length,
+        # max_form_memory_size=None, body longer than max_content_length:
+        # LimitedStream(is_max=True).readall() stops exactly at the limit without raising. Taking more
+        # than max_content_length bytes from the input is never part of that finding.
+        if what.startswith("took "):
+            return None
+        dcl = self.declared(case)
+        if case["kind"] == "url" and case["term"] and case["mm"] is None and case["mcl"] is not None and len(unhx(case["body"])) > case["mcl"] and (dcl is None or dcl <= case["mcl"]):
             return "F10b"
         return None
 
     def bucket(self, case, real_out):
-        return case["kind"] + (" cl" if case["cl"] else "") + (" term" if case["term"] else "") + " " + (real_out if real_out.startswith("EXC") else "ok")
+        r = real_out.rpartition("#")[0]
+        dcl = self.declared(case)
+        L = len(unhx(case["body"]))
+        tag = "" if dcl is None else (" cl" if dcl == L else " forged-cl")
+        return case["kind"] + tag + (" term" if case["term"] else "") + " " + (r if r.startswith("EXC") else "ok")
 
     def nontrivial(self, case, real_out):
-        return (case["cl"] or case["term"]) and not (case["mcl"] is None and case["mm"] is None and case["mp"] is None)
+        return (self.declared(case) is not None or case["term"]) and not (case["mcl"] is None and case["mm"] is None and case["mp"] is None)
 
 
 CHECK = Check(
